@@ -894,7 +894,10 @@ def life_scripts(tier, rng):
     scripts = []
     for name, calls in named:
         for jit in ((0, 300) if tier == "quick" else (0, 100, 300, 1000, 3000)):
-            scripts.append({"id": len(scripts) + 1, "name": name, "calls": calls, "jitter": jit})
+            scripts.append({"id": len(scripts) + 1, "name": name, "calls": calls, "jitter": jit, "procs": 0})
+        # one processor: a spawned timer goroutine starts late, typically after its (short) search has ended
+        for rep in range(3 if tier == "quick" else 12):
+            scripts.append({"id": len(scripts) + 1, "name": name, "calls": calls, "jitter": 0 if rep % 3 else 200, "procs": 1})
     # random controller scripts
     n = 40 if tier == "quick" else 1500
     for _ in range(n):
@@ -927,7 +930,8 @@ def life_scripts(tier, rng):
                 calls.append(rng.choice([{"op": "isready"}, {"op": "clearhash"}]))
             else:
                 calls.append(sl_(rng.choice([1, 4, 6, 12, 30])))
-        scripts.append({"id": len(scripts) + 1, "name": "random", "calls": calls, "jitter": rng.choice([0, 0, 200, 1000, 3000])})
+        scripts.append({"id": len(scripts) + 1, "name": "random", "calls": calls, "jitter": rng.choice([0, 0, 200, 1000, 3000]),
+                        "procs": rng.choice([0, 0, 1])})
     return scripts
 
 
@@ -1019,7 +1023,7 @@ def validate_life(results, tag):
         tr = life_trace(res)
         nstart = sum(1 for e in tr["c"] if e["at"] == "call.start.begin")
         cfg = ("SPECIFICATION TSpec\nCONSTANTS\n  MaxSearches = %d\n  MaxCalls = 1000\n  MaxClock = %d\n  TL = 2\n"
-               '  Modes = {"depth", "time", "inf", "ponder"}\n  FixReject = TRUE\n  FixLimits = TRUE\n  FixTimer = TRUE\n  FixTail = TRUE\n'
+               '  Modes = {"depth", "time", "inf", "ponder"}\n  FixReject = TRUE\n  FixLimits = TRUE\n  FixTimer = TRUE\n  FixToken = TRUE\n  FixTail = TRUE\n'
                '  TraceFile = "trace.json"\nCONSTRAINT Mark\nPOSTCONDITION Report\nCHECK_DEADLOCK FALSE\n'
                % (max(1, nstart), 2 * (len(tr["t"]) + 1) + 1))
         art = vlib.tlc("SearchLifecycleTrace", cfg, files={"trace.json": json.dumps(tr)}, workers=1, tag=tag, cache=False, heap="2g",
@@ -1049,7 +1053,7 @@ def check_C14(tier):
     # 1. the model itself: all interleavings of controller, search and timer goroutines
     mc = (3, 5, 3) if quick else (3, 6, 4)
     cfg = ('SPECIFICATION Spec\nCONSTANTS\n  MaxSearches = %d\n  MaxCalls = %d\n  MaxClock = %d\n  TL = 2\n'
-           '  Modes = {"depth", "time", "inf", "ponder"}\n  FixReject = TRUE\n  FixLimits = TRUE\n  FixTimer = TRUE\n  FixTail = TRUE\n'
+           '  Modes = {"depth", "time", "inf", "ponder"}\n  FixReject = TRUE\n  FixLimits = TRUE\n  FixTimer = TRUE\n  FixToken = TRUE\n  FixTail = TRUE\n'
            'INVARIANTS TypeOK NoCtrlStuck OneResultEach OwnStopOnly NoResultBeforeStop\nCHECK_DEADLOCK FALSE\n' % mc)
     a = vlib.tlc("SearchLifecycle", cfg, workers=16, heap="24g", tag="life-mc", keep_out=False, timeout=6 * 3600)
     ck.add_tlc(a)
@@ -1141,7 +1145,7 @@ def check_C14(tier):
             key = "C14|data-race|" + sig
             ck.disc_count[key] = ck.disc_count.get(key, 0) + 1
     ck.cov["evaluations"] = len(results) + len(rres)
-    ck.cov["distinct_nontrivial"] = len({json.dumps(s_["calls"]) + str(s_["jitter"]) for s_ in scripts})
+    ck.cov["distinct_nontrivial"] = len({json.dumps(s_["calls"]) + str(s_["jitter"]) + "/" + str(s_.get("procs", 0)) for s_ in scripts})
     ck.cov["traces_validated_against_impl"] = nacc
     ck.cov["counters"] = {"scripts": len(scripts), "runs_explained_by_model": nacc, "model_drift": drift,
                           "race_detector_runs": len(rres), "race_reports_in_engine_code": nrace}
